@@ -14,6 +14,7 @@ per-atom internal state) plus ASE's EMT and LennardJones.
 from __future__ import annotations
 
 import io
+import os
 import traceback
 
 import numpy as np
@@ -221,7 +222,9 @@ def run_one(rec: Rec, spec, steps, family, kind, style, mode):
         if EXCH["ok"] >= 2 or EXCH["second_started"]:
             st["two_exchanges"] = True
         tb = traceback.extract_tb(ex.__traceback__)
-        in_calc = any("calculators" in f.filename or f.name in ("calculate", "energy_forces") for f in tb)
+        # raised inside a calculator (ASE's, or the harness's own in qv/lib.py) - not inside the package's operations,
+        # whose entry point is called `calculate` as well
+        in_calc = any(("calculators" in f.filename or (f.name in ("calculate", "energy_forces") and f.filename.endswith(os.path.join("qv", "lib.py")))) for f in tb)
         if in_calc:
             how = "after-reverted-exchange" if st["after_reverted_exchange"] else "other"
             viol(f"C04/calculator-unusable/{style if kind == 'soft' else kind}/{how}", f"the calculator raised {type(ex).__name__}: {ex} on its next use"[:300], {**wit0, "traceback": traceback.format_exc()[-500:]})
